@@ -26,10 +26,17 @@ SleepOK(e) ==
             /\ \/ e.res = "nil" /\ e.t1 - e.t0 >= e.d /\ ~(end >= 0 /\ end < e.t0 + e.d)   \* nil only after at least d
                \/ e.res = "ctx" /\ end >= 0 /\ end <= e.t0 + e.d /\ e.t1 = (IF end > e.t0 THEN end ELSE e.t0)   \* the context ended first
             /\ e.t1 <= e.t0 + e.d                                                 \* it does not oversleep in fake time
+\* a call measured on the real clock (vh rt, pre-1.23 timer semantics): t0 is read before the call and t1 after it, so
+\* only the lower bound and the classification of the result can be judged
+RSleepOK(e) == /\ (e.res = "nil" => (e.d <= 0 \/ e.t1 - e.t0 >= e.d))
+               /\ (e.res = "ctx" => (e.dl >= 0 \/ e.cancelAt >= 0))
+               /\ (e.res = "toosoon" => e.dl >= 0)
+               /\ e.res \in {"nil", "ctx", "toosoon"}
 Next ==
   /\ l <= Len(Trace) /\ l' = l + 1
   /\ CASE Ev.ev = "reset" -> d' = 0 /\ j' = 0 /\ lastTick' = -1 /\ stoppedAt' = -1
        [] Ev.ev = "sleep" -> (SleepOK(Ev) = TRUE) /\ Un(<<d, j, lastTick, stoppedAt>>)
+       [] Ev.ev = "rsleep" -> (RSleepOK(Ev) = TRUE) /\ Un(<<d, j, lastTick, stoppedAt>>)
        \* any d > 0 and 0 <= jitter < d is accepted without a panic
        [] Ev.ev = "new" -> Ev.panic = 0 /\ d' = Ev.d /\ j' = Ev.j /\ Un(<<lastTick, stoppedAt>>)
        [] Ev.ev = "jreset" -> Ev.panic = 0 /\ d' = Ev.d /\ j' = Ev.j /\ stoppedAt' = -1 /\ Un(<<lastTick>>)
